@@ -423,14 +423,23 @@ func (st *Store) getValue(txn *badger.Txn, key []byte) (interface{}, error) {
 		if t == nil {
 			t = interfaceMapType
 		}
-		tv := reflect.New(t)
 		if st.useMarshal {
-			v = tv.Elem().Interface()
+			// Unmarshal into an allocated value, as a nil pointer or nil map
+			// of the type cannot be unmarshaled into.
+			switch t.Kind() {
+			case reflect.Ptr:
+				v = reflect.New(t.Elem()).Interface()
+			case reflect.Map:
+				v = reflect.MakeMap(t).Interface()
+			default:
+				v = reflect.New(t).Elem().Interface()
+			}
 			err := v.(encoding.BinaryUnmarshaler).UnmarshalBinary(dta)
 			if err != nil {
 				return err
 			}
 		} else {
+			tv := reflect.New(t)
 			err := json.Unmarshal(dta, tv.Interface())
 			if err != nil {
 				return err
